@@ -12,8 +12,8 @@ import Splipy.Properties.C08
   of direction `d`.  (Outside the domain the finite defining sum of a periodic basis is not the
   periodic map, and `lower_periodic` does change it there — so the all-parameter relation `SameMap`
   is the wrong notion for this one step.)
-* `lowerPeriodic_sameMapOn`: property C08 (`C08_lower_periodic_partial`, fibre-wise) lifted to the
-  tensor-product sum, any pardim.
+* `lowerPeriodic_sameMapOn`: property C08 (`C08_lower_periodic`, fibre-wise, no guard on the number of
+  functions and no seam hypothesis) lifted to the tensor-product sum, any pardim.
 -/
 
 namespace Splipy
@@ -164,13 +164,11 @@ theorem sameMapOn_of_fibres {o o' : Obj K} (hw : C06.WF o m) (hw' : C06.WF o' m)
   exact hfib _ _ hout hinn (s d) (u d) hu
 
 /-- **`lower_periodic(k', direction=d)` keeps the evaluated map on the domain — curves, surfaces,
-    volumes** (property C08): valid periodic direction with `n ≥ p + k` functions and the declared seam
-    multiplicity, `-1 ≤ k' ≤ k`.  The call succeeds, the result is well formed, direction `d` has
+    volumes** (property C08): ANY valid periodic direction (no lower bound on the number of functions, no
+    assumption on the seam multiplicity), `-1 ≤ k' ≤ k`.  The call succeeds, the result is well formed, direction `d` has
     continuity `k'`, the same order and domain, the other bases are untouched. -/
 theorem lowerPeriodic_sameMapOn_num {o : Obj K} (hw : C06.WF o m) (d : Fin m) (k : ℕ)
     (hk : (o.basis d).periodic = (k : Int))
-    (hguard : (o.basis d).order + k ≤ (o.basis d).numFunctions)
-    (hseam : (o.basis d).start < (o.basis d).kn (o.basis d).order)
     (k' : Int) (h1 : -1 ≤ k') (h2 : k' ≤ k) :
     ∃ o', o.lowerPeriodic k' d = .ok o' ∧ C06.WF o' m ∧ SameMapOn m d o o'
       ∧ (o'.basis d).periodic = k' ∧ (o'.basis d).order = (o.basis d).order
@@ -181,7 +179,7 @@ theorem lowerPeriodic_sameMapOn_num {o : Obj K} (hw : C06.WF o m) (d : Fin m) (k
   have hax : (d : ℕ) < o.cps.shape.length := by rw [hw.shape, midx_length]; omega
   have hsh0 : o.cps.shape.getD d 0 = (o.basis d).numFunctions := by rw [hw.shape, midx_getD_lt]
   obtain ⟨o', hl, hv', hp', ho', hn', hs', he', hoth, _, hshape, hfib⟩ :=
-    C08_lower_periodic_partial o d hsize hax (hw.valid d) k hk hguard hsh0 hseam k' h1 h2
+    C08_lower_periodic o d hsize hax (hw.valid d) k hk hsh0 k' h1 h2
   have hbk : ∀ j : Fin m, j ≠ d → o'.basis j = o.basis j :=
     fun j hj => hoth j (fun e => hj (Fin.ext e))
   have hshape' : o'.cps.shape
@@ -210,14 +208,12 @@ theorem lowerPeriodic_sameMapOn_num {o : Obj K} (hw : C06.WF o m) (d : Fin m) (k
 /-- `lowerPeriodic_sameMapOn_num` without the count of functions. -/
 theorem lowerPeriodic_sameMapOn {o : Obj K} (hw : C06.WF o m) (d : Fin m) (k : ℕ)
     (hk : (o.basis d).periodic = (k : Int))
-    (hguard : (o.basis d).order + k ≤ (o.basis d).numFunctions)
-    (hseam : (o.basis d).start < (o.basis d).kn (o.basis d).order)
     (k' : Int) (h1 : -1 ≤ k') (h2 : k' ≤ k) :
     ∃ o', o.lowerPeriodic k' d = .ok o' ∧ C06.WF o' m ∧ SameMapOn m d o o'
       ∧ (o'.basis d).periodic = k' ∧ (o'.basis d).order = (o.basis d).order
       ∧ (o'.basis d).start = (o.basis d).start ∧ (o'.basis d).stop = (o.basis d).stop
       ∧ (∀ j : Fin m, j ≠ d → o'.basis j = o.basis j) := by
-  obtain ⟨o', a1, a2, a3, a4, a5, a6, a7, a8, _⟩ := lowerPeriodic_sameMapOn_num hw d k hk hguard hseam k' h1 h2
+  obtain ⟨o', a1, a2, a3, a4, a5, a6, a7, a8, _⟩ := lowerPeriodic_sameMapOn_num hw d k hk k' h1 h2
   exact ⟨o', a1, a2, a3, a4, a5, a6, a7, a8⟩
 
 /-- `o'` at the parameters re-scaled in direction `d` is `o`, for parameters in the domain of `d`. -/
@@ -259,8 +255,6 @@ theorem periodic_vs_open_direction (tol : K) (htol : 0 < tol) (c1 c2 : Bool) (p1
     (a : Obj K × Obj K) (hw1 : C06.WF a.1 m) (hw2 : C06.WF a.2 m)
     (hb1 : a.1.basis i = openBasis p1 (clampedU x0 xl (L.map (·.1))) (clampedM p1 (L.map (·.2.1))))
     (k : ℕ) (hk : (a.2.basis i).periodic = (k : Int))
-    (hguard : (a.2.basis i).order + k ≤ (a.2.basis i).numFunctions)
-    (hseam : (a.2.basis i).start < (a.2.basis i).kn (a.2.basis i).order)
     (hb2 : ∀ o2, a.2.lowerPeriodic (-1) i = .ok o2 →
       o2.basis i = openBasis p2 (clampedU x0 xl (L.map (·.1))) (clampedM p2 (L.map (·.2.2))))
     (H_raise₁ : p1 < max p1 p2 → RaisesTo tol c1 m i p1 (max p1 p2) x0 xl L (·.1) (·.2.1) a.1)
@@ -277,7 +271,7 @@ theorem periodic_vs_open_direction (tol : K) (htol : 0 < tol) (c1 c2 : Bool) (p1
       ∧ (∀ j : Fin m, j ≠ i → r.1.basis j = a.1.basis j ∧ r.2.basis j = a.2.basis j)
       ∧ C06.WF r.1 m ∧ C06.WF r.2 m := by
   obtain ⟨o2, hl, hwo2, hson, _, _, _, _, hoth⟩ :=
-    lowerPeriodic_sameMapOn hw2 i k hk hguard hseam (-1) (le_refl _) (by omega)
+    lowerPeriodic_sameMapOn hw2 i k hk (-1) (le_refl _) (by omega)
   have hper1 : (a.1.basis i).periodic = -1 := by rw [hb1]; rfl
   have hSP : Obj.stagePeriodic a i = .ok (a.1, o2) := by
     unfold Obj.stagePeriodic
